@@ -248,3 +248,24 @@ Proof.
   - intros [j [Hj [Hd Hb]]] E. destruct (proj1 Hiff E j Hj) as [H|H]; [congruence|].
     pose proof (proj2 (Hsw i j Hi Hj) Hd) as Hr. unfold in_range in Hr. apply Z.leb_le in Hr. lia.
 Qed.
+
+(* ---------------------------------------------------------------------- *)
+(* F-C15-c: on the 4-shank header the (x, y) handed to interpolate_bad_channels are local to each shank;
+   physically the shanks are 250 um apart (SpikeGLX / IMEC NP2.4 geometry).  A source can therefore be a
+   channel of another shank, far outside the kriging range. *)
+Definition SHANK_PITCH : Z := 250.
+Definition phys_d2 (xs ys shanks : list Z) (i j : nat) : Z :=
+  let dx := (nth j xs 0 + SHANK_PITCH * nth j shanks 0) - (nth i xs 0 + SHANK_PITCH * nth i shanks 0) in
+  let dy := nth j ys 0 - nth i ys 0 in dx * dx + dy * dy.
+
+Definition np24_far_source : bool :=
+  match C08.Model.trace_header C08.Model.NP24 4 with
+  | Some th =>
+      let xs := C08.Model.g_x th in let ys := C08.Model.g_y th in let sh := C08.Model.g_shank th in
+      let labels := 1 :: repeat 0 383 in
+      existsb (Nat.eqb 48) (geo_sources xs ys labels 0) &&
+      negb (nth 0 sh 0 =? nth 48 sh 0) && (R2 <? phys_d2 xs ys sh 0 48)
+  | None => false
+  end.
+Lemma np24_far_source_true : np24_far_source = true.
+Proof. vm_compute. reflexivity. Qed.
